@@ -148,6 +148,84 @@ theorem root_recursive_matches_all (cur : Bytes) (l : Label) :
     simp [parsePatternWith, dots3, findDots, List.isPrefixOf, normPrefix, trimSlashes, cColon]
   · simp [Pattern.matches]
 
+/-- `//...:n` — the recursive pattern at the workspace root keeps its name filter: it matches exactly the
+    targets named `n`, in every package -/
+theorem root_recursive_name_exact (cur n : Bytes) (hn : n ≠ []) (hall : n ≠ allBytes) (hd : n ≠ dots3) (l : Label) :
+    ∃ pat, parsePattern cur (slash2 ++ dots3 ++ cColon :: n) = some pat ∧
+      (pat.matches l = true ↔ l.name = n) := by
+  have hnn : n.isEmpty = false := by cases n <;> simp_all
+  have hc : cColon ∉ dots3 := by decide
+  refine ⟨⟨[], n, true⟩, ?_, ?_⟩
+  · show parsePatternWith normPrefix cur (47 :: 47 :: (dots3 ++ cColon :: n)) = _
+    simp only [parsePatternWith, takeWhile_colon_append hc, dropWhile_colon_append hc]
+    simp [hnn, dots3, findDots, List.isPrefixOf, normPrefix, trimSlashes]
+  · simp [Pattern.matches, hnn, hall, hd]
+
+/-- `ParsePatternsOrMatchAll`: the arguments are parsed one by one and nothing else happens to them — the
+    result is the list of the parsed patterns, in order (no pattern is dropped, merged or widened), except that
+    no argument at all means the single match-all pattern; one unparsable argument is an error. -/
+theorem parsePatterns_spec (cur : Bytes) (ss : List Bytes) :
+    (parsePatterns cur ss = none ↔ ∃ s ∈ ss, parsePattern cur s = none) ∧
+    (∀ ps, parsePatterns cur ss = some ps →
+      (ss = [] ∧ ps = [matchAllPattern]) ∨
+      (ss ≠ [] ∧ ps.length = ss.length ∧ ∀ i (h : i < ss.length) (h' : i < ps.length), parsePattern cur ss[i] = some ps[i])) := by
+  obtain ⟨h1, h2⟩ := mapM_option_spec (parsePattern cur) ss
+  unfold parsePatterns
+  cases hm : ss.mapM (parsePattern cur) with
+  | none =>
+    refine ⟨by simpa using h1.mp hm, ?_⟩
+    intro ps h; simp at h
+  | some qs =>
+    have hne : ¬ ∃ s ∈ ss, parsePattern cur s = none := fun h => by simp [h1.mpr h] at hm
+    obtain ⟨hl, hi⟩ := h2 qs hm
+    constructor
+    · constructor
+      · intro h; cases qs <;> simp at h
+      · intro h; exact absurd h hne
+    · intro ps h
+      cases qs with
+      | nil =>
+        left
+        simp at h
+        exact ⟨List.length_eq_zero_iff.mp hl.symm, h.symm⟩
+      | cons q r =>
+        right
+        simp at h; subst h
+        refine ⟨?_, hl, hi⟩
+        intro e; subst e; simp at hl
+
+/-- the selection a pattern set denotes is exactly the union of what its arguments denote: a label is matched
+    by the set `ParsePatternsOrMatchAll` returns iff it is matched by the pattern parsed from one of the
+    arguments (every label when there is no argument) -/
+theorem parsePatterns_matches_iff (cur : Bytes) (ss : List Bytes) (ps : List Pattern)
+    (h : parsePatterns cur ss = some ps) (l : Label) :
+    matchesAny ps l = true ↔ (ss = [] ∨ ∃ s ∈ ss, ∃ p, parsePattern cur s = some p ∧ p.matches l = true) := by
+  rcases (parsePatterns_spec cur ss).2 ps h with ⟨he, hp⟩ | ⟨hne, hlen, hi⟩
+  · subst he; subst hp
+    simp [matchesAny, matchAllPattern, Pattern.matches]
+  · simp only [hne, false_or, matchesAny, List.any_eq_true]
+    constructor
+    · rintro ⟨p, hp, hm⟩
+      obtain ⟨i, hi', rfl⟩ := List.getElem_of_mem hp
+      exact ⟨ss[i]'(hlen ▸ hi'), List.getElem_mem _, ps[i], hi i (hlen ▸ hi') hi', hm⟩
+    · rintro ⟨s, hs, p, hp, hm⟩
+      obtain ⟨i, hi', rfl⟩ := List.getElem_of_mem hs
+      have := hi i hi' (hlen ▸ hi')
+      rw [hp] at this
+      injection this with e
+      exact ⟨ps[i]'(hlen ▸ hi'), List.getElem_mem _, e ▸ hm⟩
+
+/-- `TargetPatternFromLabel` (what `grog run` builds its selection from) matches exactly that label -/
+theorem patternFromLabel_matches_iff (l t : Label) (hn : l.name ≠ []) (hall : l.name ≠ allBytes) (hd : l.name ≠ dots3) :
+    (patternFromLabel l).matches t = true ↔ t = l := by
+  have hnn : l.name.isEmpty = false := by cases h : l.name <;> simp_all
+  cases t; cases l
+  simp_all [patternFromLabel, Pattern.matches]
+
+example : parsePatterns [] [[47, 47, 46, 46, 46, 58, 120], [47, 47, 97]] = some [⟨[], [120], true⟩, ⟨[97], [97], false⟩] := by decide
+example : matchesAny [⟨[], [120], true⟩, ⟨[97], [97], false⟩] ⟨[98], [121]⟩ = false := by decide
+example : parsePatterns [97] [] = some [matchAllPattern] := by decide
+
 /-- `//p/...:n` restricts the recursive pattern by exact target name -/
 theorem recursive_name_exact (cur p n : Bytes) (hp : PkgOK p) (hne : p ≠ []) (hn : n ≠ []) (hall : n ≠ allBytes)
     (hd : n ≠ dots3) (l : Label) :
